@@ -227,6 +227,16 @@ Definition to_json (s : mstate) : list (name * jentry) :=
   | None => base
   end.
 Definition json_keys (s : mstate) : list name := map fst (to_json s).
+(* the "value" of the execution_time_ms entry of to_json (None: no such entry, or a user metric):
+   end.duration_since(start).as_millis() of the SAME two stamps elapsed() reads; the clock counts
+   nanoseconds *)
+Fixpoint jlookup (n : name) (l : list (name * jentry)) : option jentry :=
+  match l with
+  | [] => None
+  | (k, x) :: r => if Z.eqb k n then Some x else jlookup n r
+  end.
+Definition json_time (s : mstate) : option Z :=
+  match jlookup exec_time_name (to_json s) with Some (JTime ms) => Some ms | _ => None end.
 
 (* sum of the increments of counter n in a list of sections / calls *)
 Definition incr_amount (n : name) (x : section) : N :=
